@@ -23,6 +23,13 @@ func (c *ClientChannel) receiveSessionFromServer(ctx context.Context) (*Session,
 		return nil, fmt.Errorf("receive session: %w", err)
 	}
 
+	if state := c.State(); ses.State.Step() < state.Step() {
+		// the server cannot take the session back to an earlier state:
+		// give up on the connection instead of panicking on the state change
+		_ = c.transport.Close()
+		return nil, fmt.Errorf("receive session: unexpected %v state while in the %v state", ses.State, state)
+	}
+
 	if ses.State == SessionStateEstablished {
 		c.localNode = ses.To
 		c.remoteNode = ses.From
